@@ -140,8 +140,10 @@ CLAIMED = {
        "code by EXHAUSTIVE correspondence over the stated range N = 1..40 x 3 modes (triangle sets as signed lattice points == model under the mode's "
        "sign vectors), ZCW counts/angles for the requested sizes, per-bin tent values on random triangles, and numeric oracles: unit vectors, region, "
        "|r|^-3 weights, spherical-excess area sum == solid angle of the region, weights summing to one (ZCW, SHREWD).",
-  note="PARTIAL: 'the weighted average of any traceless rank-2 function tends to zero' is exact by symmetry for sphere (and octant with diagonal tensors) "
-       "and only asymptotic for hemisphere/ZCW/SHREWD - no Coq proof (quadrature error analysis); the run measures it (exactly 0 / below 1.2/N / "
+  note="PARTIAL: 'the weighted average of any traceless rank-2 function tends to zero' is PROVED exact for TriAvg sphere (props/C13/sphere_traceless.v: "
+       "the octahedron point set is invariant under sign flips and coordinate swaps, any symmetric weight, every N; real-number axioms of the standard "
+       "library); it is exact by symmetry for octant with diagonal tensors "
+       "and only asymptotic for hemisphere/ZCW/SHREWD - no Coq proof there (quadrature error analysis); the run measures it (exactly 0 / below 1.2/N / "
        "shrinking) as supporting evidence. Over an octant the mean of n_x n_y is not zero in any implementation, so the clause is read for traceless "
        "DIAGONAL tensors there. SHREWD's optimiser is an oracle (only sum w = 1 claimed). Float normalisation and np.unique's merge are judged "
        "numerically. Defect F-13 (flat triangles lost) found by this check and repaired.",
